@@ -15,7 +15,7 @@ use std::{
 use compio_buf::BufResult;
 use compio_driver::{
     DriverType, Key, Proactor, ProactorBuilder, PushEntry, SharedFd,
-    op::{Asyncify, Recv, RecvFlags, Send, SendFlags, SendZc},
+    op::{AcceptMulti, Asyncify, Recv, RecvFlags, Send, SendFlags, SendZc},
     verif,
 };
 use verif_harness::*;
@@ -23,6 +23,7 @@ use verif_harness::*;
 type RecvOp = Recv<Vec<u8>, SharedFd<UnixStream>>;
 type SendOp = Send<Vec<u8>, SharedFd<UnixStream>>;
 type ZcOp = SendZc<Vec<u8>, SharedFd<UnixStream>>;
+type AccOp = AcceptMulti<SharedFd<socket2::Socket>>;
 type BlockOp = Asyncify<Box<dyn FnOnce() -> BufResult<usize, u64> + std::marker::Send>, u64>;
 
 enum Slot {
@@ -30,6 +31,7 @@ enum Slot {
     Send(Option<Key<SendOp>>),
     Block(Option<Key<BlockOp>>),
     Zc(Option<Key<ZcOp>>),
+    Acc(Option<Key<AccOp>>),
 }
 
 #[derive(Clone, Default)]
@@ -132,6 +134,9 @@ fn run(case: &[u64]) -> Result<Vec<u64>, BadCase> {
     let mut jobs_started = 0usize;
     let mut proactor = Some(builder.build().map_err(|_| BadCase)?);
     let mut slots: Vec<Slot> = Vec::new();
+    let mut listener: Option<SharedFd<socket2::Socket>> = None;
+    let mut listen_addr: Option<std::net::SocketAddr> = None;
+    let mut clients: Vec<std::net::TcpStream> = Vec::new();
     let mut results: Vec<SlotRes> = Vec::new();
     // (log position marker id, slot) pairs: U_PUSH markers carry the slot number
     for (op, a, b) in steps {
@@ -146,14 +151,17 @@ fn run(case: &[u64]) -> Result<Vec<u64>, BadCase> {
                         Slot::Send(k) => drop(k.take()),
                         Slot::Block(k) => drop(k.take()),
                 Slot::Zc(k) => drop(k.take()),
+                Slot::Acc(k) => drop(k.take()),
                         Slot::Zc(k) => drop(k.take()),
+                Slot::Acc(k) => drop(k.take()),
+                        Slot::Acc(k) => drop(k.take()),
                     }
                 }
             }
             continue;
         };
         match op {
-            1 | 2 | 3 | 12 => {
+            1 | 2 | 3 | 12 | 14 => {
                 let slot = slots.len() as u64;
                 let mut sr = SlotRes {
                     kind: op,
@@ -178,6 +186,25 @@ fn run(case: &[u64]) -> Result<Vec<u64>, BadCase> {
                                 verif::emit(U_PUSH_READY, slot, 0);
                                 record_recv(&mut sr, res);
                                 slots.push(Slot::Recv(None));
+                            }
+                        }
+                    }
+                    14 => {
+                        // multishot accept on the case's listener
+                        if listener.is_none() {
+                            let l = std::net::TcpListener::bind("127.0.0.1:0").map_err(|_| BadCase)?;
+                            l.set_nonblocking(true).ok();
+                            listen_addr = l.local_addr().ok();
+                            listener = Some(SharedFd::new(socket2::Socket::from(l)));
+                        }
+                        let o = AcceptMulti::new(listener.as_ref().unwrap().clone());
+                        match p.push(o) {
+                            PushEntry::Pending(k) => slots.push(Slot::Acc(Some(k))),
+                            PushEntry::Ready(BufResult(res, _)) => {
+                                verif::emit(U_PUSH_READY, slot, 0);
+                                // the accepted socket (if any) is owned by the returned op
+                                record_plain(&mut sr, res.map(|_| 1));
+                                slots.push(Slot::Acc(None));
                             }
                         }
                     }
@@ -321,6 +348,21 @@ fn run(case: &[u64]) -> Result<Vec<u64>, BadCase> {
                             }
                         }
                     }
+                    Slot::Acc(k) => {
+                        if let Some(key) = k.take() {
+                            verif::emit(U_POP, i as u64 + (1 << 32), 2);
+                            match p.pop(key) {
+                                PushEntry::Pending(key) => {
+                                    verif::emit(U_POP_RES, i as u64 + (1 << 32), 0);
+                                    *k = Some(key)
+                                }
+                                PushEntry::Ready(BufResult(res, _)) => {
+                                    verif::emit(U_POP_RES, i as u64 + (1 << 32), 1);
+                                    record_plain(&mut results[i], res.map(|_| 1))
+                                }
+                            }
+                        }
+                    }
                 }
             }
             7 => {
@@ -333,7 +375,10 @@ fn run(case: &[u64]) -> Result<Vec<u64>, BadCase> {
                     Slot::Send(k) => k.is_some(),
                     Slot::Block(k) => k.is_some(),
             Slot::Zc(k) => k.is_some(),
+            Slot::Acc(k) => k.is_some(),
                     Slot::Zc(k) => k.is_some(),
+            Slot::Acc(k) => k.is_some(),
+                    Slot::Acc(k) => k.is_some(),
                 };
                 if had {
                     verif::emit(U_DROP, i as u64 + (1 << 32), 0);
@@ -342,7 +387,10 @@ fn run(case: &[u64]) -> Result<Vec<u64>, BadCase> {
                         Slot::Send(k) => drop(k.take()),
                         Slot::Block(k) => drop(k.take()),
                 Slot::Zc(k) => drop(k.take()),
+                Slot::Acc(k) => drop(k.take()),
                         Slot::Zc(k) => drop(k.take()),
+                Slot::Acc(k) => drop(k.take()),
+                        Slot::Acc(k) => drop(k.take()),
                     }
                 }
             }
@@ -384,6 +432,14 @@ fn run(case: &[u64]) -> Result<Vec<u64>, BadCase> {
                             }
                         }
                     }
+                    Slot::Acc(k) => {
+                        if let Some(key) = k.take() {
+                            verif::emit(U_CANCEL, i as u64 + (1 << 32), 0);
+                            if let Some(BufResult(res, _)) = p.cancel(key) {
+                                record_plain(&mut results[i], res.map(|_| 1));
+                            }
+                        }
+                    }
                 }
             }
             9 => {
@@ -405,6 +461,7 @@ fn run(case: &[u64]) -> Result<Vec<u64>, BadCase> {
                     Slot::Send(k) => tok!(k),
                     Slot::Block(k) => tok!(k),
                     Slot::Zc(k) => tok!(k),
+                    Slot::Acc(k) => tok!(k),
                 }
             }
             10 => {
@@ -415,8 +472,14 @@ fn run(case: &[u64]) -> Result<Vec<u64>, BadCase> {
                             Slot::Send(k) => k.is_some(),
                             Slot::Block(k) => k.is_some(),
             Slot::Zc(k) => k.is_some(),
+            Slot::Acc(k) => k.is_some(),
                             Slot::Zc(k) => k.is_some(),
+            Slot::Acc(k) => k.is_some(),
+                            Slot::Acc(k) => k.is_some(),
+                    Slot::Acc(k) => k.is_some(),
                     Slot::Zc(k) => k.is_some(),
+            Slot::Acc(k) => k.is_some(),
+                    Slot::Acc(k) => k.is_some(),
                         };
                         if had {
                             verif::emit(U_DROP, i as u64 + (1 << 32), 0);
@@ -425,17 +488,41 @@ fn run(case: &[u64]) -> Result<Vec<u64>, BadCase> {
                                 Slot::Send(k) => drop(k.take()),
                                 Slot::Block(k) => drop(k.take()),
                 Slot::Zc(k) => drop(k.take()),
+                Slot::Acc(k) => drop(k.take()),
                             Slot::Zc(k) => drop(k.take()),
+                Slot::Acc(k) => drop(k.take()),
+                            Slot::Acc(k) => drop(k.take()),
+                        Slot::Acc(k) => drop(k.take()),
                         Slot::Zc(k) => drop(k.take()),
+                Slot::Acc(k) => drop(k.take()),
+                        Slot::Acc(k) => drop(k.take()),
                             }
                         }
                     }
                 }
                 drop(proactor.take());
             }
+            15 => {
+                // `a` clients connect to the listener
+                if let Some(addr) = listen_addr {
+                    for _ in 0..a.min(4) {
+                        if let Ok(c) = std::net::TcpStream::connect(addr) {
+                            clients.push(c);
+                        }
+                    }
+                }
+            }
             13 => {
                 // zero-copy send: the byte count is available before the buffer is
                 let i = a as usize;
+                if let Some(Slot::Acc(Some(key))) = slots.get(i) {
+                    while let Some(BufResult(res, _)) = p.pop_multishot(key) {
+                        if let Ok(fd) = res {
+                            unsafe { libc::close(fd as i32) };
+                            results[i].first += 1;
+                        }
+                    }
+                }
                 if let Some(Slot::Zc(Some(key))) = slots.get(i) {
                     if let Some(BufResult(res, _)) = p.pop_multishot(key) {
                         results[i].first = match res {
@@ -463,6 +550,7 @@ fn run(case: &[u64]) -> Result<Vec<u64>, BadCase> {
             Slot::Send(k) => k.is_some(),
             Slot::Block(k) => k.is_some(),
             Slot::Zc(k) => k.is_some(),
+            Slot::Acc(k) => k.is_some(),
         };
         if had {
             verif::emit(U_DROP, i as u64 + (1 << 32), 0);
@@ -471,6 +559,7 @@ fn run(case: &[u64]) -> Result<Vec<u64>, BadCase> {
                 Slot::Send(k) => drop(k.take()),
                 Slot::Block(k) => drop(k.take()),
                 Slot::Zc(k) => drop(k.take()),
+                Slot::Acc(k) => drop(k.take()),
             }
         }
     }
